@@ -101,6 +101,7 @@ Inv_C15(e) ==
                 /\ \E t \in UnknownTokens(e.in, e.lang) : HasInfix(e.err.msg, t))
         /\ (d # {} => ~e.err.nil)
         /\ (e.err.nil => d = {})
+InvR_C15(e) == e.op = "Recheck" /\ e.kind = "error" => e.same        \* ... and an error keeps saying what it said when it was returned
 
 Inv_C09(e) ==
     CASE e.op = "ByEntropy" ->
@@ -137,7 +138,8 @@ Inv_C07(e) ==
 
 Inv_C14(e) == Has(e, "panicked") => NoCrash(e)
 
-Inv_C16(e) == e.op = "String" => NoCrash(e) /\ e.out = LangNameOf(e.n.neg, e.n.digits)
+Inv_C16(e) == /\ (e.op = "String" => NoCrash(e) /\ e.out = LangNameOf(e.n.neg, e.n.digits))
+              /\ (e.op = "Recheck" /\ e.kind = "string" => e.same)        \* a name handed out keeps reading as that name
 
 SeedOK(e)  == e.seed = Seed(e.m, e.p) /\ e.len = 64 /\ ~e.aliased /\ (e.alias_checked => e.seed2 = e.seed)
 SeedF3(e)  == HasLongRun(e.m, e.p) /\ e.seed = StreamSafeSeed(e.m, e.p) /\ e.len = 64 /\ ~e.aliased
@@ -219,7 +221,7 @@ Holds(p, e) ==
       [] p = "C04" -> Inv_C04(e) [] p = "C05" -> Inv_C05(e) [] p = "C06" -> Inv_C06(e)
       [] p = "C07" -> Inv_C07(e) [] p = "C08" -> Inv_C08(e) [] p = "C09" -> Inv_C09(e)
       [] p = "C10" -> Inv_C10(e) [] p = "C11" -> Inv_C11(e) [] p = "C13" -> Inv_C13(e)
-      [] p = "C14" -> Inv_C14(e) [] p = "C15" -> Inv_C15(e) [] p = "C16" -> Inv_C16(e)
+      [] p = "C14" -> Inv_C14(e) [] p = "C15" -> Inv_C15(e) /\ InvR_C15(e) [] p = "C16" -> Inv_C16(e)
       [] p = "C17" -> Inv_C17(e) [] p = "C12" -> Inv_C12(e) [] p = "XNFKD" -> Inv_XNFKD(e) [] OTHER -> TRUE
 KnownF(p, e) == (p = "C04" /\ KF_C04(e)) \/ (p = "C11" /\ KF_C11(e))
 
